@@ -3,7 +3,7 @@ from pyvc.verify import Post, Case, Equiv, NativeFacts
 from contracts import common
 
 PROPERTY = 'C13'
-REF_MODULES = ['ref_registry', 'ref_extra', 'ref_core']
+REF_MODULES = ['ref_registry', 'ref_extra', 'ref_core', 'ref_auto', 'ref_t', 'ref_reduce', 'ref_mut', 'h_path', 'ref_match']
 
 
 def config(cfg):
@@ -58,6 +58,13 @@ def contracts():
                         config=lambda cfg: cfg.summaries.update({'core.TargetRegistry.register_op': 'register_op',
                                                                  'core.TargetRegistry._register_default_types': 'register_defaults'})))
     cs.append(Equiv('core.TargetRegistry._register_default_types', 'ref_registry.default_types_ref', args={'self': REG}))
+    # the consumers: every place that asks the registry for a handler (so that none of them bypasses it)
+    from contracts import C03, C14, C15, C11, C12
+    cs += common.shared(C03, ['core._handle_list'])
+    cs += common.shared(C14, ['core._extend_children'])
+    cs += common.shared(C15, ['grouping.target_iter'])
+    cs += common.shared(C11, ['core._assign_op'])
+    cs += common.shared(C12, ['mutation.Delete._del_one'])
     return cs
 
 
@@ -181,7 +188,7 @@ def bounded_registration_orders(tier, seed):
 def bounded_isolation(tier, seed):
     """Glommer instances neither affect nor are affected by global registrations or each other; a register() takes effect for the next call"""
     import glom
-    from glom import Glommer
+    from glom import Glommer, T
     cases, failures = 0, []
     class Iso:
         __slots__ = ('v',)
@@ -211,7 +218,57 @@ def bounded_isolation(tier, seed):
     dflt = Glommer().glom({'a': [1, {'b': (2,)}]}, 'a.1.b.0')
     if dflt != glom.glom({'a': [1, {'b': (2,)}]}, 'a.1.b.0'):
         failures.append({'key': 'default-glommer', 'input': 'a.1.b.0', 'observed': repr(dflt), 'expected': '2', 'replay_code': None})
-    return {'name': 'Glommer isolation / immediacy', 'bound': '3 scenarios', 'cases': cases, 'failures': failures, 'label': 'bounded'}
+    # the three registration entry points agree: an exact registration covers the type itself only, a plain one its subclasses too
+    class IsoSub(Iso):
+        __slots__ = ()
+    import glom.core as gc
+    for exact in (False, True):
+        outs = {}
+        for how in ('Glommer.register', 'TargetRegistry.register', 'bare Glommer'):
+            cases += 1
+            g = Glommer(register_default_types=(how != 'bare Glommer'))
+            h = lambda o, k: 'custom'
+            if how == 'TargetRegistry.register':
+                g.scope[gc.TargetRegistry].register(Iso, get=h, exact=exact)
+            else:
+                g.register(Iso, get=h, exact=exact)
+            res = []
+            for inst in (Iso(), IsoSub()):
+                try:
+                    res.append(g.glom(inst, 'v'))
+                except glom.GlomError as e:
+                    res.append(type(e).__name__)
+            outs[how] = res
+        want_sub = 'custom' if not exact else None
+        for how, res in outs.items():
+            ok = res[0] == 'custom' and (res[1] == 'custom' if not exact else res[1] != 'custom')
+            if not ok:
+                failures.append({'key': 'exact-entry-points', 'input': {'entry': how, 'exact': exact}, 'observed': repr(res),
+                                 'expected': "['custom', 'custom']" if not exact else "['custom', <not the custom handler>]", 'replay_code': None})
+    # iteration goes through the registry for every kind of target, self-iterating ones (generators, iterators) included
+    cases += 1
+    gb = Glommer(register_default_types=False)
+    try:
+        r = gb.glom(iter([1, 2]), [T])
+        failures.append({'key': 'iterate-bypass', 'input': 'bare Glommer, iterator target, [T]', 'observed': repr(r), 'expected': 'UnregisteredTarget', 'replay_code': None})
+    except glom.UnregisteredTarget:
+        pass
+    except glom.GlomError as e:
+        pass
+    cases += 1
+    gi = Glommer()
+    class Cursor:
+        def __init__(self): self.i = 0
+        def __iter__(self): return self
+        def __next__(self):
+            self.i += 1
+            if self.i > 2: raise StopIteration
+            return self.i
+    gi.register(Cursor, iterate=lambda c: iter(['registered']))
+    r = gi.glom(Cursor(), [T])
+    if r != ['registered']:
+        failures.append({'key': 'iterate-bypass', 'input': 'registered iterate handler for a self-iterating type', 'observed': repr(r), 'expected': "['registered']", 'replay_code': None})
+    return {'name': 'Glommer isolation / immediacy / entry points', 'bound': '11 scenarios', 'cases': cases, 'failures': failures, 'label': 'bounded'}
 
 
 BOUNDED = [bounded_registration_orders, bounded_isolation]
